@@ -198,3 +198,36 @@ func VerifGetAttribute(obj interface{}, attr string) (interface{}, error) {
 func VerifCurrentTemplate(e *Engine) string { return e.currentTemplate }
 
 var _ = unsafe.Pointer(nil)
+
+// VerifWrapCallbacks replaces every registered filter, function and test by the wrapper's result,
+// so that the harness can make any built-in callback invocation fallible and countable.
+func VerifWrapCallbacks(e *Engine,
+	wf func(name string, f FilterFunc) FilterFunc,
+	wfn func(name string, f FunctionFunc) FunctionFunc,
+	wt func(name string, f TestFunc) TestFunc) {
+	env := e.environment
+	names := make([]string, 0, len(env.filters))
+	for n := range env.filters {
+		names = append(names, n)
+	}
+	sort.Strings(names)
+	for _, n := range names {
+		env.filters[n] = wf(n, env.filters[n])
+	}
+	names = names[:0]
+	for n := range env.functions {
+		names = append(names, n)
+	}
+	sort.Strings(names)
+	for _, n := range names {
+		env.functions[n] = wfn(n, env.functions[n])
+	}
+	names = names[:0]
+	for n := range env.tests {
+		names = append(names, n)
+	}
+	sort.Strings(names)
+	for _, n := range names {
+		env.tests[n] = wt(n, env.tests[n])
+	}
+}
